@@ -189,7 +189,7 @@ func (e *Engine) emitWith(st *State, name, sub string, extraHyps []T, goal T, te
 	}
 	fmt.Fprintf(&b, "(assert (not %s))\n(check-sat)\n", goal.S)
 	pathSeq[name]++
-	q := &Query{Name: name, Sub: fmt.Sprintf("p%d%s", pathSeq[name], sub), Text: b.String(), Goal: text, Pos: pos, Func: e.curFn}
+	q := &Query{Name: name, Sub: fmt.Sprintf("p%d%s", pathSeq[name], sub), Text: b.String(), Goal: text, Pos: pos, Func: e.curFn, Exit: e.curExit}
 	q.Props = append(q.Props, props...)
 	if cl != nil {
 		q.Clause = cl.Hash()
